@@ -343,6 +343,15 @@ def finding_matches(fd, prop, ev, fmts):
         f = fmts[ev.get("fmt", 0)] if isinstance(ev.get("fmt"), int) and ev.get("fmt") < len(fmts) else {}
         if tag not in f.get("tags", []):
             return False
+    if m.get("out_lt1_positional"):
+        # a written float below 1 in positional notation: [-]0<point>..., no exponent character
+        out = (ev.get("res") or {}).get("out")
+        o = ev.get("opts") or {}
+        if not isinstance(out, list) or "point" not in o:
+            return False
+        body = out[1:] if out[:1] in ([45], [43]) else out
+        if body[:2] != [48, o["point"]] or o.get("exp") in body[2:]:
+            return False
     if m.get("in_letters_only"):
         b = ev.get("in")
         if not isinstance(b, list) or not b:
